@@ -21,7 +21,7 @@ pub static PROP: Prop = Prop {
     rule: "forward: 48 sizes x generated contents rendered by MatrixMap::bitmap() compared bit for bit with the reference renderer (solid L, clock tracks, alignment bars per region grid of the standard), try_from_bits must return the same size and content; converse: pixel arrays = every single-module deviation of a valid rendering of every size (exhaustive), 2-3 simultaneous deviations, arbitrary arrays, width 0, non-dividing lengths, dimensions matching no symbol incl. transposed rectangles; oracle: if try_from_bits accepts, re-rendering the parsed content reproduces the array exactly, otherwise the documented error kinds ZeroWidth / DataSize / SymbolSize for the three shape errors; non-trivial = converse cases that differ from a valid rendering in a non-data module, forward cases on multi-region sizes; distinct by array",
     assumptions: &["finder / alignment geometry R5/R6 from ISO/IEC 16022 5.? symbol structure: each data region has a solid left and bottom bar, alternating top and right tracks (dark at the corner adjoining the solid bar)"],
     extra: super::no_extra,
-    fuzz_runs: 50000,
+    fuzz_runs: 200000,
 };
 
 pub fn check_forward(c: &CwCase) -> Verdict {
